@@ -99,7 +99,10 @@ func loadSpec(root, id string) *spec {
 
 func env() []string {
 	e := os.Environ()
-	e = append(e, "GOFLAGS=-mod=mod", "GOPROXY=off", "GOSUMDB=off", "GOTOOLCHAIN=local")
+	e = append(e, "GOFLAGS=-mod=mod", "GOPROXY=off", "GOSUMDB=off", "GOTOOLCHAIN=local",
+		// packages of the module cache are otherwise read through the module index,
+		// which ignores the build overlay (instrumented dependencies of kit)
+		"GODEBUG=goindex=0")
 	return e
 }
 
@@ -425,7 +428,11 @@ func buildHarness(s *part, root, scratch string) string {
 			gargs = append(gargs, strings.ReplaceAll(a, "{dir}", filepath.Join(root, s.Harness)))
 		}
 		for _, p := range s.Pkgs {
-			gargs = append(gargs, kit+p)
+			if strings.Contains(strings.SplitN(p, "/", 2)[0], ".") {
+				gargs = append(gargs, p) // a dependency of kit, by its full import path
+			} else {
+				gargs = append(gargs, kit+p)
+			}
 		}
 		if out, err := run(root, nil, gen, gargs...); err != nil {
 			panic(buildError(fmt.Sprintf("mcgen failed (the instrumented copy could not be produced from the working tree):\n%s", out)))
